@@ -15,6 +15,7 @@ RULE = (
     "update event of the run is judged: no lagging upstream by the reference model of required source times, "
     "every pull at the announced time succeeds, every request reaching a source output is not beyond its "
     "newest publication, delivered values equal the expected-value model where it is defined. "
+    "Part large_ratio_enum: one consumer update needs 1001-4097 consecutive producer updates. "
     "non-trivial = >=1 link whose producer and consumer step sequences differ and >=5 update events. "
     "distinct = canonical JSON of the spec."
 )
@@ -98,5 +99,28 @@ spec_deep = st.one_of(
 )
 
 
+def enum_large_ratio(tier):
+    """one consumer update needs 1001 .. 2000 consecutive producer updates (minute data feeding a daily model): direct,
+    behind pass-through / interpolating / delay adapters, through a pull-based component, two producers"""
+    def model(name, steps, ins, start=0):
+        return {"kind": "model", "name": name, "start": start, "steps": steps, "ins": ins, "outs": ["o"]}
+
+    ratios = (1001, 1440) if tier == "quick" else (1000, 1001, 1024, 1025, 1440, 2000, 4097)
+    for r in ratios:
+        for chain in ([], [["lin"]], [["dfix", 7]], [["scale", 2.0], ["next"]]):
+            for order in (["M0", "M1"], ["M1", "M0"]):
+                yield {"comps": [model("M0", [1], []), model("M1", [r], ["i0"])], "links": [["M0", "o", chain, "M1", "i0"]],
+                       "order": order, "end": r + 3, "excluded": ["info:large-step-ratio"], "tick_us": None}
+        yield {"comps": [model("M0", [1], []), {"kind": "thru", "name": "T0"}, model("M1", [r], ["i0"])],
+               "links": [["M0", "o", [["lin"]], "T0", "In"], ["T0", "Out", [["scale", 1.0]], "M1", "i0"]],
+               "order": ["M1", "T0", "M0"], "end": r + 3, "excluded": ["info:large-step-ratio"], "tick_us": None}
+        yield {"comps": [model("M0", [1], []), model("M2", [7], []), model("M1", [r, 5], ["i0", "i1"])],
+               "links": [["M0", "o", [], "M1", "i0"], ["M2", "o", [["lin"]], "M1", "i1"]],
+               "order": ["M1", "M2", "M0"], "end": r + 9, "excluded": ["info:large-step-ratio"], "tick_us": 333333}
+
+
 def parts():
-    return [Part("compositions", check, strategy=spec_st, strategy_thorough=spec_deep, budget={"quick": 1600, "thorough": 100000}, fuzz={"thorough": 6000})]
+    return [
+        Part("compositions", check, strategy=spec_st, strategy_thorough=spec_deep, budget={"quick": 1600, "thorough": 100000}, fuzz={"thorough": 6000}),
+        Part("large_ratio_enum", check, enumerate=enum_large_ratio, exhaustive=True),
+    ]
